@@ -1,12 +1,356 @@
-/-! Model for property C03 (core-only: no Mathlib import, so the driver links). -/
+import OnetVerif.Model.Util
+import OnetVerif.Generated
+/-! Model for property C03 — wire integrity (core-only: no Mathlib import, so the driver links).
+
+* framing: `network/tcp.go` `sendRaw` (208-235) and `receiveRawProd` (143-185): a 4-byte big-endian
+  length, then the body; the receiver reads through `conn.Read`, which hands out a non-empty prefix
+  of what is in flight — modelled as a list of *segments* (`Segs`); "all segmentations and
+  coalescings of the TCP stream" is "all `segs` whose concatenation is the stream".
+* envelope: `network/encoding.go` `Marshal`/`Unmarshal` (133-180): 16-byte type id, then the
+  protobuf body.  The protobuf codec and the type registry are a parameter (`Codec`).
+* receive loop: `network/router.go` `handleConn` (415-484): which errors of `Conn.Receive` end the
+  connection and which are skipped.
+* in-memory transport: `network/local.go` (143-153 `send`, 258-311 `start`/`Send`/`Receive`): two
+  chained bounded FIFOs of marshalled buffers.
+-/
 namespace C03
 
+/-! ### framing -/
+
+/-- `binary.Write(conn, BigEndian, Size(len(b)))` (tcp.go:214-217): `Size` is `uint32`, so the
+conversion wraps. -/
+def be32 (n : Nat) : List Nat := [n / 2^24 % 256, n / 2^16 % 256, n / 2^8 % 256, n % 256]
+
+/-- `binary.Read(conn, BigEndian, &total)` on the four header bytes -/
+def unbe32 : List Nat → Nat
+  | [a, b, c, d] => a * 2^24 + b * 2^16 + c * 2^8 + d
+  | _ => 0
+
+/-- what `sendRaw` puts on the wire for one buffer -/
+def encFrame (b : List Nat) : List Nat := be32 b.length ++ b
+
+/-- bytes in flight towards the receiver, as the segments the transport will hand out -/
+abbrev Segs := List (List Nat)
+
+/-- one `conn.Read(buf)` with `len(buf) = n ≥ 1`: blocks until at least one byte is there, returns
+at most `n` bytes of the first segment; `none` = `io.EOF` (peer closed, nothing left). -/
+def read : Segs → Nat → Option (List Nat × Segs)
+  | [], _ => none
+  | s :: rest, n =>
+    if s.isEmpty then read rest n
+    else if s.length ≤ n then some (s, rest)
+    else some (s.take n, s.drop n :: rest)
+
+/-- the read loops of `io.ReadFull` (header, through `binary.Read`) and of `receiveRawProd`
+(`for read < total { n, err := c.conn.Read(b); …; b = b[n:] }`, tcp.go:162-179): keep reading into
+the rest of the buffer until `n` bytes are there.  `none` = EOF before that. The fuel is the number
+of bytes wanted (every `Read` delivers at least one). -/
+def readExact : Nat → Segs → Nat → List Nat → Option (List Nat) × Segs
+  | _, c, 0, acc => (some acc, c)
+  | 0, c, _ + 1, _ => (none, c)
+  | fuel + 1, c, n + 1, acc =>
+    match read c (n + 1) with
+    | none => (none, [])
+    | some (bs, c') => readExact fuel c' (n + 1 - bs.length) (acc ++ bs)
+
+/-- the error sentinels of the network package (struct.go:28-44) an error may wrap with `%w` -/
+inductive Sentinel where
+  | timeout | closed | eof | unknown | canceled
+  deriving DecidableEq, Repr
+
+/-- what `Conn.Receive` can answer instead of a message -/
+inductive RecvErr where
+  /-- `io.EOF`/`io.ErrUnexpectedEOF` while reading header or body → `handleError` → `ErrEOF` -/
+  | eof
+  /-- header announces more than `MaxPacketSize` (tcp.go:154-157); wraps `ErrUnknown` since the fix -/
+  | tooBig
+  /-- `Unmarshal`: fewer than 16 bytes (`buffer read: …`, `%v`) -/
+  | short
+  /-- `Unmarshal`: type id not in the registry (`type … not registered`) -/
+  | unknownType
+  /-- `Unmarshal`: protobuf refused the body (`decoding: …`, `%v`) -/
+  | decode
+  /-- the connection was closed locally (`use of closed …`, closed local queue) → `ErrClosed` -/
+  | closed
+  /-- read deadline passed → `ErrTimeout` -/
+  | timeout
+  /-- any other `net.Error` / unrecognised error → `ErrUnknown` -/
+  | unknownNet
+  /-- `… canceled` → `ErrCanceled` -/
+  | canceled
+  deriving DecidableEq, Repr
+
+/-- which sentinel the error value wraps (`%w` chains in tcp.go / local.go / encoding.go) -/
+def sentinelOf : RecvErr → Option Sentinel
+  | .eof => some .eof
+  | .tooBig => some .unknown          -- the C03 fix: was `none` (plain `xerrors.Errorf` without `%w`)
+  | .short | .unknownType | .decode => none
+  | .closed => some .closed
+  | .timeout => some .timeout
+  | .unknownNet => some .unknown
+  | .canceled => some .canceled
+
+/-- `handleConn` (router.go:450-472): timeout, closed, EOF and unknown end the connection (error
+handlers are fired, the deferred `c.Close()` runs); everything else is "temporary, continue". -/
+def fatal : Option Sentinel → Bool
+  | some .timeout | some .closed | some .eof | some .unknown => true
+  | some .canceled | none => false
+
+/-- `receiveRawProd` (tcp.go:143-185): header, size test against the limit, body.  Returns what is
+left in flight as well, because a non-fatal error lets the loop go on from there. -/
+def recvFrame (max : Nat) (c : Segs) : Except RecvErr (List Nat) × Segs :=
+  match readExact 4 c 4 [] with
+  | (none, c1) => (.error .eof, c1)
+  | (some hdr, c1) =>
+    let total := unbe32 hdr
+    if total > max then (.error .tooBig, c1)
+    else match readExact total c1 total [] with
+      | (none, c2) => (.error .eof, c2)
+      | (some b, c2) => (.ok b, c2)
+
+/-- calling `receiveRaw` until it fails: the frames and the error that ended it -/
+def recvFrames (max : Nat) : Nat → Segs → List (List Nat) × Option RecvErr
+  | 0, _ => ([], none)
+  | fuel + 1, c =>
+    match recvFrame max c with
+    | (.error e, _) => ([], some e)
+    | (.ok b, c') => let r := recvFrames max fuel c'; (b :: r.1, r.2)
+
+/-- bytes still in flight -/
+def inflight (c : Segs) : Nat := c.flatten.length
+
+/-! ### envelope -/
+
+/-- the protobuf codec and the type registry, as far as `Marshal`/`Unmarshal` use them -/
+structure Codec (V : Type) where
+  /-- `computeMessageType(msg)`: the 16-byte type id of a value's Go type -/
+  tyOf : V → List Nat
+  /-- the type is registered on the sending side and `protobuf.Encode` accepts the value -/
+  sendable : V → Bool
+  /-- `protobuf.Encode` -/
+  enc : V → List Nat
+  /-- `registry.get` on the receiving side -/
+  registered : List Nat → Bool
+  /-- `protobuf.DecodeWithConstructors` into a fresh value of the registered type -/
+  dec : List Nat → List Nat → Option V
+
+/-- the assumed behaviour of the codec (DESIGN §7: trusted, exercised by the correspondence run) -/
+structure Codec.Sound {V : Type} (cd : Codec V) : Prop where
+  ty_len : ∀ v, cd.sendable v = true → (cd.tyOf v).length = 16
+  ty_reg : ∀ v, cd.sendable v = true → cd.registered (cd.tyOf v) = true
+  roundtrip : ∀ v, cd.sendable v = true → cd.dec (cd.tyOf v) (cd.enc v) = some v
+
+/-- `Marshal` (encoding.go:133-157): `none` = error (type not registered / encoding failed) -/
+def marshal {V : Type} (cd : Codec V) (v : V) : Option (List Nat) :=
+  if cd.sendable v then some (cd.tyOf v ++ cd.enc v) else none
+
+/-- `Unmarshal` (encoding.go:164-180) -/
+def unmarshal {V : Type} (cd : Codec V) (buf : List Nat) : Except RecvErr V :=
+  if buf.length < 16 then .error .short
+  else if cd.registered (buf.take 16) then
+    match cd.dec (buf.take 16) (buf.drop 16) with
+    | some v => .ok v
+    | none => .error .decode
+  else .error .unknownType
+
+/-- `TCPConn.Receive` (tcp.go:117-130) -/
+def receive {V : Type} (cd : Codec V) (max : Nat) (c : Segs) : Except RecvErr V × Segs :=
+  match recvFrame max c with
+  | (.error e, c') => (.error e, c')
+  | (.ok b, c') => (unmarshal cd b, c')
+
+/-! ### receive loop -/
+
+/-- what one turn of `handleConn` does -/
+inductive Event (V : Type) where
+  /-- `r.Dispatch(packet)` -/
+  | deliver (v : V)
+  /-- "Temporary error, continue" -/
+  | refused (e : RecvErr)
+  /-- error handlers fired, `return`; the deferred `c.Close()` closes the connection -/
+  | closed (e : RecvErr)
+  deriving DecidableEq, Repr
+
+/-- how `handleConn` reacts to one result of `Receive` -/
+def react {V : Type} : Except RecvErr V → Event V
+  | .ok v => .deliver v
+  | .error e => if fatal (sentinelOf e) then .closed e else .refused e
+
+def Event.isClosed {V : Type} : Event V → Bool
+  | .closed _ => true
+  | _ => false
+
+/-- `handleConn` (router.go:430-483) on a TCP connection; fuel = an upper bound on the turns. -/
+def recvLoop {V : Type} (cd : Codec V) (max : Nat) : Nat → Segs → List (Event V)
+  | 0, _ => []
+  | fuel + 1, c =>
+    let r := receive cd max c
+    let ev := react r.1
+    if ev.isClosed then [ev] else ev :: recvLoop cd max fuel r.2
+
+/-- the loop with enough fuel for whatever is in flight (every turn that goes on has consumed a
+4-byte header) -/
+def recvAll {V : Type} (cd : Codec V) (max : Nat) (c : Segs) : List (Event V) :=
+  recvLoop cd max (inflight c + 1) c
+
+/-- what a sender's `c.Send` calls put on the wire, one after the other (tcp.go:189-235) -/
+def wire (bufs : List (List Nat)) : List Nat := (bufs.map encFrame).flatten
+
+/-- what the loop does with one received buffer -/
+def classify {V : Type} (cd : Codec V) (b : List Nat) : Event V := react (unmarshal cd b)
+
+/-! ### in-memory transport -/
+
+/-- `LocalConn.Receive` + `handleConn` on the in-memory transport (local.go:294-311): the queue
+hands over whole buffers; a closed queue is `ErrClosed`. No size limit. -/
+def localLoop {V : Type} (cd : Codec V) (q : List (List Nat)) : List (Event V) :=
+  q.map (classify cd) ++ [.closed .closed]
+
+/-- the two chained channels of one `LocalConn` (`incomingQueue` → goroutine `start` →
+`outgoingQueue`, local.go:225-275), capacity `cap` each, and what `Receive` already took out -/
+structure LQ where
+  inc : List (List Nat) := []
+  out : List (List Nat) := []
+  got : List (List Nat) := []
+  deriving DecidableEq, Repr
+
+inductive LAct where
+  /-- `manager.send`: `q.incomingQueue <- msg` -/
+  | send (b : List Nat)
+  /-- `start`: `buff := <-incomingQueue; outgoingQueue <- buff` -/
+  | move
+  /-- `Receive`: `<-outgoingQueue` -/
+  | recv
+  deriving DecidableEq, Repr
+
+/-- one step; `none` = the thread is blocked (full / empty channel) -/
+def lstep (cap : Nat) (s : LQ) : LAct → Option LQ
+  | .send b => if s.inc.length < cap then some { s with inc := s.inc ++ [b] } else none
+  | .move =>
+    match s.inc with
+    | [] => none
+    | b :: rest => if s.out.length < cap then some { s with inc := rest, out := s.out ++ [b] } else none
+  | .recv =>
+    match s.out with
+    | [] => none
+    | b :: rest => some { s with out := rest, got := s.got ++ [b] }
+
+/-- a schedule; blocked steps are skipped. Returns the state and the buffers whose `send` went through -/
+def lrun (cap : Nat) : LQ → List LAct → LQ × List (List Nat)
+  | s, [] => (s, [])
+  | s, a :: l =>
+    match lstep cap s a with
+    | none => lrun cap s l
+    | some s' =>
+      let r := lrun cap s' l
+      (r.1, (match a with | .send b => [b] | _ => []) ++ r.2)
+
+/-! ### line-protocol driver -/
 namespace Drv
-/-- line-protocol driver state for C03 -/
-abbrev State := Unit
-def init : State := ()
-/-- one line in (tokens after the property prefix), new state and one line out -/
-def step (s : State) (_toks : List String) : State × String := (s, "bad-op")
+
+/-- the driver's codec: a value *is* its marshalled buffer; the registry and the set of buffers
+the protobuf decoder refuses are tables supplied by the harness (the codec is a parameter of the
+model — the tables instantiate it with what the real codec did on this run). -/
+def tableCodec (reg bad : List (List Nat)) : Codec (List Nat) where
+  tyOf v := v.take 16
+  sendable v := decide (16 ≤ v.length) && reg.contains (v.take 16)
+  enc v := v.drop 16
+  registered t := reg.contains t
+  dec t b := if bad.contains (t ++ b) then none else some (t ++ b)
+
+structure State where
+  max : Nat := Generated.maxPacketSize
+  reg : List (List Nat) := []
+  bad : List (List Nat) := []
+
+def init : State := {}
+
+def hexList (s : String) : Option (List (List Nat)) :=
+  if s = "-" then some [] else (s.splitOn ",").mapM Util.unhex
+
+/-- cut a stream into segments of the given sizes (zero sizes are dropped); what is left after the
+last size is one more segment -/
+def cut : List Nat → List Nat → Segs
+  | bs, [] => if bs.isEmpty then [] else [bs]
+  | bs, k :: ks => if bs.isEmpty then [] else
+      if k = 0 then cut bs ks else bs.take k :: cut (bs.drop k) ks
+
+def showErr : RecvErr → String
+  | .eof => "eof" | .tooBig => "toobig" | .short => "short" | .unknownType => "unknown"
+  | .decode => "decode" | .closed => "closed" | .timeout => "timeout" | .unknownNet => "neterr"
+  | .canceled => "canceled"
+
+def showEvent : Event (List Nat) → String
+  | .deliver v => "d:" ++ Util.hex v
+  | .refused e => "x:" ++ showErr e
+  | .closed e => "end:" ++ showErr e
+
+def showEvents (l : List (Event (List Nat))) : String :=
+  if l.isEmpty then "-" else ",".intercalate (l.map showEvent)
+
+/-- for `send`, the harness sees *that* the receiving router dropped the connection, not why -/
+def showLive (l : List (Event (List Nat))) : String :=
+  if l.isEmpty then "-" else ",".intercalate (l.map fun
+    | .closed _ => "end:closed"
+    | e => showEvent e)
+
+/-- the sending side of `Router.Send(e, msgs...)`: buffers are marshalled and written one after the
+other; the first one `Marshal` refuses ends the call with an error (the reconnect-and-retry of
+router.go:339-351 fails on the same message again) -/
+def sendable (cd : Codec (List Nat)) : List (List Nat) → List (List Nat) × Bool
+  | [] => ([], true)
+  | b :: l => if cd.sendable b then let r := sendable cd l; (b :: r.1, r.2) else ([], false)
+
+/-- drop the final "peer closed" of a stream that merely has nothing more in flight yet -/
+def live (l : List (Event (List Nat))) : List (Event (List Nat)) :=
+  l.filter (fun e => e != .closed .eof)
+
+/--
+* `cfg <max|gen> <registered type ids> <undecodable buffers>` — limit (`gen` = the constant
+  extracted from /repo), registry and decoder tables
+* `raw <frames> <tail> <chunks>` — a sender `sendRaw`s the frames, then writes `tail` as it is and
+  closes; the transport cuts the stream as `chunks`; the receiver calls `receiveRaw` until it fails
+* `unm <buffer>` — `Unmarshal`
+* `loop <frames> <tail> <chunks>` — the same stream into `handleConn`
+* `send <tcp|local>[/<proxy chunk pattern>] <buffers>` — `Router.Send` of these messages over a live connection and what
+  the receiving router does with them
+-/
+def step (s : State) (toks : List String) : State × String :=
+  let cd := tableCodec s.reg s.bad
+  match toks with
+  | ["cfg", m, reg, bad] =>
+    let m? : Option Nat := if m = "gen" then some Generated.maxPacketSize else m.toNat?
+    match m?, hexList reg, hexList bad with
+    | some m, some reg, some bad => ({ max := m, reg := reg, bad := bad }, "ok")
+    | _, _, _ => (s, "bad-op")
+  | ["raw", fr, tl, ch] =>
+    match hexList fr, Util.unhex tl, Util.natList ch with
+    | some fr, some tl, some ch =>
+      let c := cut (wire fr ++ tl) ch
+      let r := recvFrames s.max (inflight c + 1) c
+      (s, (if r.1.isEmpty then "-" else ",".intercalate (r.1.map Util.hex)) ++ " end:" ++
+        (match r.2 with | some e => showErr e | none => "fuel"))
+    | _, _, _ => (s, "bad-op")
+  | ["unm", b] =>
+    match Util.unhex b with
+    | some b => (s, match unmarshal cd b with | .ok _ => "ok" | .error e => "err:" ++ showErr e)
+    | none => (s, "bad-op")
+  | ["loop", fr, tl, ch] =>
+    match hexList fr, Util.unhex tl, Util.natList ch with
+    | some fr, some tl, some ch => (s, showEvents (recvAll cd s.max (cut (wire fr ++ tl) ch)))
+    | _, _, _ => (s, "bad-op")
+  | ["send", tr, bufs] =>
+    match hexList bufs with
+    | some bufs =>
+      let (ok, all) := sendable cd bufs
+      let res := if all then "ok" else "err:marshal"
+      let kind := (tr.splitOn "/").headD ""
+      if kind = "tcp" then (s, res ++ " " ++ showLive (live (recvAll cd s.max [wire ok])))
+      else if kind = "local" then (s, res ++ " " ++ showLive ((localLoop cd ok).dropLast))
+      else (s, "bad-op")
+    | none => (s, "bad-op")
+  | _ => (s, "bad-op")
+
 end Drv
 
 end C03
